@@ -51,7 +51,7 @@ func TestProp(t *testing.T) {
 	c.Check(t, func(rt *rapid.T) {
 		s := e2.DrawStructural(rt, e2.StructOpt{
 			Env:    progen.EnvOpt{Avoid: c.ActiveSet()},
-			NTypes: 14,
+			NTypes: 14, EnumChunks: true,
 			Roles:  []string{"hash", "equal"},
 		})
 		var xfail string
